@@ -34,3 +34,5 @@ var errNotBytes = errorString("vKey: Raw target is not *[]byte")
 type errorString string
 
 func (e errorString) Error() string { return string(e) }
+
+func (k vKey) PublicKey() (jwk.Key, error) { return k, nil }
